@@ -2,6 +2,7 @@ import TIV.C01.Model
 import TIV.Common.BlockProofs
 import TIV.Common.GfxProofs
 import TIV.Common.GenCtl
+import TIV.C01.Strings
 /-!
 # C01 — a render output occupies exactly its advertised columns × lines rectangle.
 
@@ -187,6 +188,149 @@ theorem iterm_rect (a : ITermArgs) (payloads : List (List Nat))
     simp only [List.mem_map] at hc
     obtain ⟨p, _, rfl⟩ := hc
     exact ⟨rfl, rfl, rfl⟩
+
+/-! ## the string itself: complete control sequences, `h - 1` newlines, none at the end -/
+
+/-- what C01 says about the render *string* -/
+structure StringOK (s : String) (h : Nat) : Prop where
+  /-- every control sequence in it is complete (`Scan.Complete`: scanning ends in `ground`, never `bad`) -/
+  complete : Scan.Complete s
+  /-- exactly `h - 1` newline characters -/
+  newlines : Scan.nlCount s = h - 1
+  /-- it does not end with a newline -/
+  noTrailingNl : s.toList.getLast? ≠ some '\n'
+
+theorem getLast?_append_ne_nil {α} (a b : List α) (h : b ≠ []) : (a ++ b).getLast? = b.getLast? := by
+  simp [List.getLast?_append]
+  cases hb : b.getLast? with
+  | none => simp [List.getLast?_eq_none_iff] at hb; exact absurd hb h
+  | some x => simp
+
+theorem last_not_nl (ts : List Tok) (t : Tok) (hw : Scan.WfTok t) (hne : t ≠ .lf) (hs : t.str.toList ≠ []) :
+    (toksStr (ts ++ [t])).toList.getLast? ≠ some '\n' := by
+  have e : (toksStr (ts ++ [t])).toList = (toksStr ts).toList ++ t.str.toList := by
+    simp [toksStr, String.toList_join]
+  rw [e, getLast?_append_ne_nil _ _ hs]
+  intro h
+  have := List.mem_of_getLast? h
+  exact Scan.tok_noNl t hne hw this
+
+/-- from per-line well-formedness to the string-level claim, for a render whose last line ends in
+    a token with a non-empty serialisation -/
+theorem stringOK_of_lines (ls : List (List Tok)) (h : Nat) (hlen : ls.length = h)
+    (hwf : ∀ l ∈ ls, ∀ t ∈ l, Scan.WfTok t ∧ t ≠ .lf)
+    (hlast : ∃ pre t, joinLines ls = pre ++ [t] ∧ t ≠ .lf ∧ t.str.toList ≠ [] ∧ Scan.WfTok t) :
+    StringOK (toksStr (joinLines ls)) h := by
+  obtain ⟨hw, hnolf⟩ := lines_wf ls hwf
+  refine ⟨Scan.toks_complete _ hw, ?_, ?_⟩
+  · rw [Scan.nlCount_toks _ hw, count_lf_joinLines ls hnolf, hlen]
+  · obtain ⟨pre, t, he, hne, hs, hwt⟩ := hlast
+    rw [he]; exact last_not_nl pre t hwt hne hs
+
+theorem joinLines_last (ls : List (List Tok)) (t : Tok) (pre : List Tok)
+    (h : ls.getLast? = some (pre ++ [t])) : ∃ pre', joinLines ls = pre' ++ [t] := by
+  induction ls with
+  | nil => simp at h
+  | cons a rest ih =>
+    cases rest with
+    | nil => simp at h; exact ⟨pre, by simp [joinLines, h]⟩
+    | cons b rest2 =>
+      have : (b :: rest2).getLast? = some (pre ++ [t]) := by simpa [List.getLast?_cons_cons] using h
+      obtain ⟨p', hp'⟩ := ih this
+      exact ⟨a ++ Tok.lf :: p', by simp [joinLines, hp']⟩
+
+/-- BLOCK string: complete, `h - 1` newlines, no trailing newline — every pixel content -/
+theorem block_string (cfg : Block.Cfg) (rows : List (List Block.PP)) (hpos : rows ≠ []) :
+    StringOK (toksStr (Block.render cfg rows)) rows.length := by
+  unfold Block.render
+  apply stringOK_of_lines _ _ (by simp [Block.renderLines]) (block_lines_wf cfg rows)
+  have hne : Block.renderLines cfg rows ≠ [] := by simp [Block.renderLines, hpos]
+  have hl : (Block.renderLines cfg rows).getLast? = some (Block.line cfg (rows.getLast hpos) ++ [Tok.sgr0]) := by
+    simp [Block.renderLines, List.getLast?_map, List.getLast?_eq_some_getLast hpos]
+  obtain ⟨pre', hp'⟩ := joinLines_last _ Tok.sgr0 _ hl
+  exact ⟨pre', Tok.sgr0, hp', by simp, by decide, trivial⟩
+
+/-- a token fit to end a render: not `lf`, non-empty serialisation, well formed -/
+def EndTok (t : Tok) : Prop := t ≠ .lf ∧ t.str.toList ≠ [] ∧ Scan.WfTok t
+
+theorem lines_last (ls : List (List Tok)) (hne : ls ≠ []) (h : ∀ l ∈ ls, ∃ pre t, l = pre ++ [t] ∧ EndTok t) :
+    ∃ pre t, joinLines ls = pre ++ [t] ∧ t ≠ .lf ∧ t.str.toList ≠ [] ∧ Scan.WfTok t := by
+  obtain ⟨pre, t, he, ht⟩ := h (ls.getLast hne) (List.getLast_mem hne)
+  obtain ⟨pre', hp'⟩ := joinLines_last ls t pre (by rw [List.getLast?_eq_some_getLast hne, he])
+  exact ⟨pre', t, hp', ht.1, ht.2.1, ht.2.2⟩
+
+theorem endTok_cuf (w : Nat) : EndTok (.cuf w) :=
+  ⟨by simp, by simp [Tok.str, fill, GenCtl.CURSOR_FORWARD], trivial⟩
+
+theorem endTok_iterm (w h : Nat) (k : Bool) (p : List Nat) : EndTok (.iterm (itermCmd w h k p)) :=
+  ⟨by simp, by simp [Tok.str, ITermCmd.str, fill, GenCtl.ITERM2_START], wf_itermCmd w h k p⟩
+
+theorem fill_ends (mix : Bool) (w : Nat) : ∃ pre t, Gfx.fillToks mix w = pre ++ [t] ∧ EndTok t :=
+  ⟨_, _, rfl, endTok_cuf w⟩
+
+theorem kittyLine_ends (blend mix : Bool) (w : Nat) (k : KittyCmd) :
+    ∃ pre t, Gfx.kittyLine blend mix w k = pre ++ [t] ∧ EndTok t := by
+  refine ⟨(if blend then [] else [Tok.kittyDelCursor]) ++ [Tok.kitty k] ++ (if mix then [] else [Tok.ech w]),
+    .cuf w, ?_, endTok_cuf w⟩
+  simp [Gfx.kittyLine, Gfx.fillToks]
+
+/-- KITTY string: complete, `h - 1` newlines, no trailing newline — every payload and flag -/
+theorem kitty_string (a : KittyArgs) (payloads : List (List Nat))
+    (hp : payloads.length = if a.whole then 1 else a.rh) (hpos : 0 < a.rh) :
+    StringOK (toksStr (joinLines (kittyLinesOf a payloads))) a.rh := by
+  have hlen : (kittyLinesOf a payloads).length = a.rh := by
+    unfold kittyLinesOf
+    cases hw : a.whole <;> simp only [hw] at hp ⊢
+    · simp [Gfx.kittyLines, hp]
+    · match payloads, hp with
+      | [p], _ => simp [Gfx.kittyWhole]; omega
+  apply stringOK_of_lines _ _ hlen (kitty_lines_wf a payloads)
+  apply lines_last _ (by intro h0; rw [h0] at hlen; simp at hlen; omega)
+  intro l hl
+  unfold kittyLinesOf at hl
+  cases hw : a.whole <;> simp only [hw] at hp hl
+  · simp only [Bool.false_eq_true, if_false, Gfx.kittyLines, List.mem_map] at hl
+    obtain ⟨k, _, rfl⟩ := hl
+    exact kittyLine_ends ..
+  · match payloads, hp, hl with
+    | [p], _, hl =>
+      simp only [if_true, Gfx.kittyWhole, List.mem_cons, List.mem_replicate] at hl
+      rcases hl with rfl | ⟨_, rfl⟩
+      · exact kittyLine_ends ..
+      · exact fill_ends ..
+
+/-- ITERM2 string: complete, `h - 1` newlines, no trailing newline — every payload, method, terminal -/
+theorem iterm_string (a : ITermArgs) (payloads : List (List Nat))
+    (hp : payloads.length = if a.whole then 1 else a.rh) (hpos : 0 < a.rh) :
+    StringOK (toksStr (joinLines (itermLinesOf a payloads))) a.rh := by
+  have hlen : (itermLinesOf a payloads).length = a.rh := by
+    unfold itermLinesOf
+    cases hw : a.whole <;> simp only [hw] at hp ⊢
+    · simp [Gfx.itermLines, hp]
+    · match payloads, hp with
+      | [p], _ => cases hk : a.konsole <;> simp [Gfx.itermWhole, hk] <;> omega
+  apply stringOK_of_lines _ _ hlen (iterm_lines_wf a payloads)
+  apply lines_last _ (by intro h0; rw [h0] at hlen; simp at hlen; omega)
+  intro l hl
+  unfold itermLinesOf at hl
+  cases hw : a.whole <;> simp only [hw] at hp hl
+  · simp only [Bool.false_eq_true, if_false, Gfx.itermLines, List.mem_map] at hl
+    obtain ⟨c, ⟨p, _, rfl⟩, rfl⟩ := hl
+    cases hk : a.konsole
+    · exact ⟨Gfx.eraseToks a.erase a.rw, .iterm (itermCmd a.rw 1 false p), by simp [Gfx.itermLine, hk], endTok_iterm ..⟩
+    · exact ⟨Gfx.eraseToks a.erase a.rw ++ [Tok.iterm (itermCmd a.rw 1 true p)], _,
+        by simp [Gfx.itermLine, hk], endTok_cuf a.rw⟩
+  · match payloads, hp, hl with
+    | [p], _, hl =>
+      cases hk : a.konsole <;> simp only [if_true, Gfx.itermWhole, hk, Bool.false_eq_true, if_false] at hl
+      · simp only [List.mem_append, List.mem_replicate, List.mem_singleton] at hl
+        rcases hl with ⟨_, rfl⟩ | rfl
+        · exact ⟨Gfx.eraseToks a.erase a.rw, _, rfl, endTok_cuf a.rw⟩
+        · exact ⟨Gfx.eraseToks a.erase a.rw ++ Gfx.upToks a.rh, _, rfl, endTok_iterm ..⟩
+      · simp only [List.mem_cons, List.mem_replicate] at hl
+        rcases hl with rfl | ⟨_, rfl⟩
+        · exact ⟨Gfx.eraseToks a.erase a.rw ++ [Tok.iterm (itermCmd a.rw a.rh true p)], _, by simp, endTok_cuf a.rw⟩
+        · exact ⟨[], _, rfl, endTok_cuf a.rw⟩
 
 /-- non-vacuity: a 3×2 block fits at (row 4, column 5) of a 10×8 terminal -/
 example : Ready ({ W := 10, H := 8, row := 4, col := 5, lm := 5 } : Term) 4 5 3 2 0 :=
